@@ -98,6 +98,7 @@ package parse
 // so the private Input built by Position copies the bytes instead of borrowing a terminator slot.
 //@ func NewErrorLexer
 //@   trusted
+//@   pure
 //@   requires[S] bufInv(l)
 //@   ensures[S]  result != nil && sameBytes()
 
